@@ -94,6 +94,10 @@ pub fn run(tier: Tier) -> i32 {
         let qs = prefix_queries(&prefixes);
         let before = acc.evaluations;
         let yielded = run_queries("C05", &spec, &bytes, &model, &qs, acc);
+        if !uni_file || i % 64 == 0 {
+            acc.count("files_also_queried_over_a_short_reading_source", 1);
+            crate::qcheck::run_queries_io("C05", &spec, &bytes, &model, &qs, acc, true);
+        }
         acc.count("entries_yielded", yielded);
         if blocks > spec.cfg.index_levels as usize + 2 {
             acc.nontrivial += acc.evaluations - before;
